@@ -58,6 +58,9 @@ def _atom(rnd, names):
         'months >= max_val(%s, period("month") * 0.5)' % K, 'total / months %s %s' % (rnd.choice(['>', '<']), N), 'months %s period("year")' % op,
         'months * %s >= period("month")' % K, 'abs(total) %s %s' % (op, N), 'min_val(total, %s) == %s' % (N, N), '(total if months > %s else 0) %s %s' % (K, op, N),
         'count(payments) == count(by("day"))', 'total - max(payments) %s %s' % (op, N), 'true', 'false',
+        # stddev(): 0 for fewer than two values and for equal values under every definition (anything else is not judged); maps over by()
+        'max(stddev(by("month"))) %s %s' % (rnd.choice(['<', '<=', '>', '==']), rnd.choice(['0', '1', '5'])), 'sum(stddev(by("day"))) == 0',
+        'stddev(payments) %s %s' % (rnd.choice(['<', '<=', '>']), rnd.choice(['0', '1'])), 'count(stddev(by("month"))) == months',
         # chained comparisons: every link counts, each against its own neighbour
         '%s <= months <= %s' % (rnd.choice(['1', '2', '3']), rnd.choice(['2', '3', '6'])), '%s < total < %s' % (rnd.choice(['0', '10', '100']), rnd.choice(['100', '500', '1000'])),
         '%s <= cv < %s' % (rnd.choice(['0', '0.3']), rnd.choice(['0.5', '1'])), '%s > total >= %s' % (rnd.choice(['1000', '500']), rnd.choice(['0', '50', '100'])),
